@@ -240,6 +240,7 @@ func (fr *frame) applyCall(cc *ssa.CallCommon, st *bstate, site ssa.Instruction,
 			fr.keepOwnedChannels(preH, st)
 		}
 		fr.keepMonotone(preH, st)
+		fr.havocWritersPassed(args, st)
 		if callee == nil || !(callee.Pkg != nil && inModule(callee.Pkg.Pkg) || callee.Parent() != nil) {
 			fr.keepFreeVarCells(preH, st, args)
 		}
@@ -394,11 +395,26 @@ func (fr *frame) applySpec(spec *FuncSpec, name string, pnames []string, args []
 	case spec.ModAll || !spec.HasMod:
 		st.heap = f.hs.havocAll(st.heap)
 		st.heap.byCall = true
+		if spec.Extern || spec.IsCallSpec {
+			// library code and callbacks cannot close channels private to the module's types
+			st.heap.keep = map[string]bool{"G.chan.closed": true}
+		} else if fn := f.e.funcsByName[name]; fn != nil && !f.e.mayClose(fn) {
+			st.heap.keep = map[string]bool{"G.chan.closed": true}
+		}
+		st.heap.inclStable = spec.ModAll && len(spec.Modifies) == 0 && !spec.Extern // library functions know nothing of the ghost model; "modifies *" alone: everything; with a list: everything but only the listed stable ghosts
 		st.heap.keepPrivate = !fr.calleeIsWriter(name)
 		if st.heap.keepPrivate {
 			fr.keepOwnedChannels(pre, st)
 		}
 		fr.keepMonotone(pre, st)
+		for _, m := range spec.Modifies {
+			nh, err := env.havocLocation(st.heap, m)
+			if err != nil {
+				f.fail("%s: modifies of %s: %v", spec.Line, sn, err)
+				break
+			}
+			st.heap = nh
+		}
 	default:
 		for _, m := range spec.Modifies {
 			nh, err := env.havocLocation(st.heap, m)
@@ -627,6 +643,9 @@ func (fr *frame) builtin(b *ssa.Builtin, cc *ssa.CallCommon, args []Val, st *bst
 		m, k := args[0], args[1]
 		mt := cc.Args[0].Type().Underlying().(*types.Map)
 		fr.checkGuardedValue(cc.Args[0], st, true, site.Pos())
+		if u, ok := cc.Args[0].(*ssa.UnOp); ok && u.Op == token.MUL {
+			fr.checkFieldContents(u.X, st, site.Pos())
+		}
 		_, dk, _ := f.mapKeys(mt)
 		if dk == "" {
 			f.abstr["delete-compositekey"]++
@@ -1144,6 +1163,15 @@ func (fr *frame) calleeIsWriter(name string) bool {
 
 // checkFieldStore: stores to final / private fields outside their constructors / writers.
 func (fr *frame) checkFieldStore(addr ssa.Value, st *bstate, pos token.Pos) {
+	fr.checkFieldWrite(addr, st, pos, false)
+}
+
+// checkFieldContents: mutation of the map stored in the field (only `private` declarations restrict that).
+func (fr *frame) checkFieldContents(addr ssa.Value, st *bstate, pos token.Pos) {
+	fr.checkFieldWrite(addr, st, pos, true)
+}
+
+func (fr *frame) checkFieldWrite(addr ssa.Value, st *bstate, pos token.Pos, contentsOnly bool) {
 	f := fr.f
 	if f.dry {
 		return
@@ -1175,6 +1203,9 @@ func (fr *frame) checkFieldStore(addr ssa.Value, st *bstate, pos token.Pos) {
 		return false
 	}
 	for _, fn := range ts.Final {
+		if contentsOnly {
+			break
+		}
 		if fn == fname && !isMethodOf(ts.Ctors) && !isMethodOf(ts.Inits) && f.e.active(ts.FinalTags) {
 			f.oblige(st, fmt.Sprintf("%s#frame:final:%s.%s", fnShortName(fr.fn), ts.Name, fname), "frame", ts.FinalTags, "false",
 				fmt.Sprintf("%s.%s is declared final: written only by %v", ts.Name, fname, ts.Ctors), posStr(f.e.fset, pos))
@@ -1221,7 +1252,43 @@ func (fr *frame) checkCtorInvariants(ret *retState) {
 // other heap location as it found it.
 func (fr *frame) checkFrame(st *bstate) {
 	f := fr.f
-	if f.dry || fr.spec == nil || !fr.spec.HasMod || fr.spec.ModAll || fr.spec.Trusted {
+	if f.dry || fr.spec == nil || !fr.spec.HasMod || fr.spec.Trusted {
+		return
+	}
+	if fr.spec.ModAll {
+		if len(fr.spec.Modifies) == 0 {
+			return
+		}
+		// "modifies *, g1, g2": of the stable ghosts only the listed ones may change
+		allowed := map[string]bool{}
+		env := fr.specEnv(f.entryHeap, f.entryHeap, nil)
+		for _, m := range fr.spec.Modifies {
+			probe, err := env.havocLocation(f.entryHeap, m)
+			if err != nil {
+				continue
+			}
+			for h := probe; h != nil && h != f.entryHeap; h = h.parent {
+				switch h.kind {
+				case "write":
+					allowed[h.key] = true
+				case "havocSome":
+					for k := range h.keys {
+						allowed[k] = true
+					}
+				}
+			}
+		}
+		allowed["G.lockops"] = true
+		allowed["G.lockheld"] = true
+		for _, key := range sortedKeys(f.hs.stable) {
+			if allowed[key] || f.hs.sorts[key] == "" {
+				continue
+			}
+			before, after := f.hs.read(f.entryHeap, key), f.hs.read(st.heap, key)
+			if before != after {
+				f.oblige(st, fmt.Sprintf("%s#frame:unchanged:%s", fnShortName(fr.fn), key), "frame", nil, eq(after, before), "ghost state outside the declared frame is unchanged", fr.spec.Line)
+			}
+		}
 		return
 	}
 	lf := &loopFrame{keys: map[string]map[string]bool{}}
@@ -1532,4 +1599,42 @@ func (fr *frame) invTouched(ts *TypeSpec, inv *Clause, self Val, from, to *Heap)
 		}
 	}
 	return false
+}
+
+// havocWritersPassed: an unknown callee that is handed an http.ResponseWriter may
+// write a status and headers through it.
+func (fr *frame) havocWritersPassed(args []Val, st *bstate) {
+	f := fr.f
+	g, ok := f.e.specs.ghosts["status"]
+	if !ok || len(g.Params) != 1 {
+		return
+	}
+	for _, a := range args {
+		if a.K != KAny || a.T == nil {
+			continue
+		}
+		it, ok := a.T.Underlying().(*types.Interface)
+		if !ok {
+			continue
+		}
+		isRW := false
+		for i := 0; i < it.NumMethods(); i++ {
+			if it.Method(i).Name() == "WriteHeader" {
+				isRW = true
+			}
+		}
+		if !isRW {
+			continue
+		}
+		key := f.ghostKey("status", sortInt, true, sortAny)
+		arr := f.hs.read(st.heap, key)
+		nh := f.hs.write(st.heap, key, f.c.define("Hu."+key, f.hs.sorts[key], app("store", arr, a.Tm, f.c.freshConst("status.unknown", sortInt))))
+		nh.obj = a.Tm
+		st.heap = nh
+		if g2, ok := f.e.specs.ghosts["hval"]; ok && len(g2.Params) == 2 {
+			if k2, _, err := f.ghost2Key(g2); err == nil {
+				st.heap = f.hs.havocKeys(st.heap, map[string]bool{k2: true})
+			}
+		}
+	}
 }
